@@ -130,3 +130,27 @@ Theorem C02_t1_retry_cut_safe_guarded : forall hr0 m d cap L faults kf f, t1_wf_
     forall k2, t1_safe_class hr0 m d (apply_ws m1 (firstn k2 (snd (t1_attempt hr0 m1 L F c d kf f)))).
 Proof. exact t1_retry_cut_safe. Qed.
 Print Assumptions C02_t1_retry_cut_safe_guarded.
+
+(* ---------------------------------------------------------------- a different assignment after failed attempts.
+   After the repair c02-tlv-reader-reset-after-failed-write the memory reader forgets its cache when a synchronize fails, so every
+   reader_ok state is a fresh reader's state on a well-formed memory.  Hence: after any faulted attempts with data d1, an assignment
+   of ANY data d2 - itself cut after k2 commands or failing at command kf with fate f - leaves for a fresh reader what the tag held
+   before this assignment (m1), an empty message or d2; undisturbed (kf = None) it succeeds and reads back d2.
+   (Before the repair: an assignment whose commit command was executed but not answered, followed by an assignment of other data,
+   wrote the new data under the still valid length - found by the check, findings/C02.json.) *)
+Theorem C02_t2_rewrite_safe : forall m d1 cap faults d2 kf f, wf_layout m -> t2_capacity m = Some cap -> len d1 <= cap -> len d2 <= cap ->
+  exists L m1 F c, t2_after m d1 faults = Some (L, (m1, F, c)) /\ safe_class m d1 m1 /\
+    let '(r, st', ex) := t2_attempt m1 L F c d2 kf f in
+    (forall k2, safe_class m1 d2 (apply_ws m1 (firstn k2 ex))) /\
+    (kf = None -> r = Ok tt /\ t2_fresh (apply_ws m1 ex) = Msg d2 /\ t2_capacity (apply_ws m1 ex) = Some cap).
+Proof. exact t2_rewrite_safe. Qed.
+Print Assumptions C02_t2_rewrite_safe.
+
+Theorem C02_t1_rewrite_safe_guarded : forall hr0 m d1 cap L faults d2 kf f, t1_wf_layout hr0 m -> t1_capacity hr0 m = Some cap ->
+  len d1 <= cap -> len d2 <= cap -> t1_layout hr0 m = Some L -> t1_guard hr0 L d1 -> t1_guard hr0 L d2 ->
+  exists m1 F c, t1_after hr0 m d1 faults = Some (L, (m1, F, c)) /\ t1_safe_class hr0 m d1 m1 /\
+    let '(r, st', ex) := t1_attempt hr0 m1 L F c d2 kf f in
+    (forall k2, t1_safe_class hr0 m1 d2 (apply_ws m1 (firstn k2 ex))) /\
+    (kf = None -> r = Ok tt /\ t1_fresh hr0 (apply_ws m1 ex) = Msg d2 /\ t1_capacity hr0 (apply_ws m1 ex) = Some cap).
+Proof. exact t1_rewrite_safe. Qed.
+Print Assumptions C02_t1_rewrite_safe_guarded.
